@@ -9,7 +9,7 @@ for f in sorted(glob.glob("/verif/seeded/*/meta.json")):
     m = json.load(open(f)); n = os.path.basename(os.path.dirname(f))
     det = m.get("detected_by", {})
     cell = "; ".join("%s: %s" % (k, ("caught (%s)" % (v.get("first_signatures") or ["?"])[0][:70]) if v.get("detected") else "MISSED") for k, v in sorted(det.items())) or "not run"
-    rows.append(clean("| %s | %s | %s | %s |" % (n, m["property"], m["needs_to_manifest"].replace("|", "/"), cell.replace("|", "/"))))
+    rows.append(clean("| %s | %s | %s | %s |" % (n, m["property"], (m["needs_to_manifest"][:200] + ("…" if len(m["needs_to_manifest"]) > 200 else "")).replace("|", "/").replace("\n", " "), cell.replace("|", "/"))))
 print("| seeded change | property | needs, in order to manifest | result |\n|---|---|---|---|")
 print("\n".join(rows))
 
